@@ -132,6 +132,10 @@ def _vm_goal(cid, case, out):
             continue
         if op[0] == "P":
             t = "OPush %s" % a
+        elif op[0] == "Q":
+            k, x, an = a.split(":")
+            x = "0" if x == "6" else x
+            t = "OPushX (mkDesc %s %s %s)" % (k, x, "None" if an == "-" else "(Some (RTag %s))" % an)
         elif op[0] == "T":
             k, x, an, rf = a.split(":")
             x = "0" if x == "6" else x
